@@ -80,7 +80,7 @@ _RE_DEPTH = re.compile(r"The depth of the complete state graph search is (\d+)")
 
 
 def run_tlc(module, cfg=None, files=None, workers=1, timeout=600, extra=None, heap="3g",
-            want_cases=False, deque=False):
+            want_cases=False, deque=False, cfg_text=None):
     """Run TLC on spec/<module>.tla with spec/<cfg>.cfg in a scratch copy of the spec dir.
 
     files: {name_in_scratch: source_path} copied next to the modules (trace files).
@@ -96,6 +96,10 @@ def run_tlc(module, cfg=None, files=None, workers=1, timeout=600, extra=None, he
         except OSError:
             shutil.copy(src, dst)
     cfg = cfg or module
+    if cfg_text is not None:
+        cfg = cfg + "_gen"
+        with open(os.path.join(d, cfg + ".cfg"), "w") as f:
+            f.write(cfg_text)
     cmd = ["java", "-Xss512m", "-Xmx" + heap, "-XX:+UseParallelGC"]
     if deque:
         cmd.append("-Dtlc2.tool.queue.IStateQueue=StateDeque")
@@ -330,11 +334,11 @@ class Ctx:
         if len(self.samples) < limit:
             self.samples.append(s)
 
-    def mc(self, module, cfg=None, workers=None, timeout=900, want_cases=False, extra=None, heap="4g"):
+    def mc(self, module, cfg=None, workers=None, timeout=900, want_cases=False, extra=None, heap="4g", cfg_text=None):
         """Exhaustive TLC run of a bounded configuration; a counterexample here is a model
         finding (exit 2 path), not a verdict about the code."""
         r = run_tlc(module, cfg=cfg, workers=workers or min(NCPU, 8), timeout=timeout,
-                    want_cases=want_cases, extra=extra, heap=heap)
+                    want_cases=want_cases, extra=extra, heap=heap, cfg_text=cfg_text)
         self.add_tlc(r, "mc:" + (cfg or module))
         if r.timed_out:
             raise MachineryFault("TLC timed out on %s" % (cfg or module))
